@@ -32,6 +32,7 @@ fn run(a: &[String]) -> String {
         "frame_depth_all" => scenarios::frame_depth_all(&a[1]),
         "frame_depth" => scenarios::frame_depth(&a[1], &a[2]),
         "depth_limit" => scenarios::depth_limit(),
+        "inspector_logs_inputs" => scenarios_r4::inspector_logs_inputs(),
         "reward_differential" => scenarios::reward_differential(),
         "handler_flag" => scenarios::handler_flag(&a[1], a[2] == "true"),
         "has_storage_layer" => scenarios::has_storage_layer(&a[1]),
@@ -63,3 +64,4 @@ fn run(a: &[String]) -> String {
 }
 
 mod scenarios;
+mod scenarios_r4;
